@@ -13,6 +13,12 @@ PROP = dict(
                        "requested_unless_excused (the REQUEST the real preprocess() built for every planted simple reference has the URL of its RFC 3986 resolution against the PAGE - the last URL of the chain, not the seed)",
                        "property_text_without_exclusions (the same for every planted reference)",
                        "redirect_chain_followed (the item that received the page has the URL the chain of Location headers leads to, every hop resolved against its parent)"]),
+        dict(driver="htmlarch", binary="zhtml", quick=150, thorough=3000, shard=50,
+             monitors=["standard_attrs_extracted (as for html)",
+                       "anchors_become_outlinks (the page was fetched by the real archiver stage: archive() and its own call of ProcessBody)",
+                       "requested_unless_excused (requests built by the real preprocess() after the real archive() and postprocess(), under domains crawl x disable-assets-capture x max-hops x hops)",
+                       "property_text_without_exclusions (the same with the excuses of the property text only)",
+                       "redirect_chain_followed (the archived item has the page URL)"]),
     ],
     partial="goquery / golang.org/x/net/html, net/url (resolveURL), ada (NormalizeURL), encoding/json and xurls are oracles: the theorems are over DOMs and over reference ASTs of the simple forms; "
             "the driver checks on every document that the real parser reads the rendering back to the generated DOM and records the oracles' answers. No theorem covers arbitrary bytes.",
